@@ -4,7 +4,7 @@
 # without it, and the repository's full test suite still builds and passes with it.  Writes a report.
 set -u
 SRC=$1; ID=$2
-WT=/tmp/wt/confirm
+WT=${CONFIRM_WT:-/tmp/wt/confirm}
 REPORT=/tmp/wt/confirm_results/$ID.txt
 if [ ! -d "$WT" ]; then git -C /repo worktree add -q --detach "$WT" HEAD || exit 2; fi
 git -C "$WT" checkout -q --detach "$(git -C /repo rev-parse HEAD)"; git -C "$WT" checkout -q -- .
